@@ -117,7 +117,7 @@ def render(t, agent_id: str) -> str:
 
 class Snapshot:
     """What an entry looked like when it was logged (the oracle's data)."""
-    __slots__ = ("type", "name", "meta", "blocks", "headers", "extended", "serial", "session_alive")
+    __slots__ = ("type", "name", "meta", "blocks", "headers", "extended", "serial", "session_alive", "undecodable")
 
     def __init__(self):
         self.type = ""
@@ -127,6 +127,20 @@ class Snapshot:
         self.headers: Dict[str, str] = {}
         self.extended = None
         self.session_alive = True
+        self.undecodable = False      # header fine, body could not be parsed (damaged in flight)
+
+
+class Undecodable(Exception):
+    """A leaf needed the fields of a message whose body cannot be decoded."""
+
+
+def shown(tree, snap, agent_id) -> bool:
+    """What the log shows: an entry the filter cannot be evaluated on is simply not shown (evaluation order as written,
+    left to right with short-circuiting, as the logger evaluates it)."""
+    try:
+        return eval_tree(tree, snap, agent_id)
+    except Undecodable:
+        return False
 
 
 NOW = {"selected": None}     # what is selected in the viewer right now (set by the "select" op)
@@ -230,6 +244,8 @@ def eval_leaf(leaf, snap: Snapshot, agent_id: str) -> bool:
             return False
         return applies(op, v, exp)
     # message field selector: only LLUDP entries have fields
+    if snap.undecodable and (fnmatch.fnmatchcase(snap.name, sel[0]) or fnmatch.fnmatchcase(snap.type, sel[0])):
+        raise Undecodable()
     if snap.blocks is None:
         return False
     if not (fnmatch.fnmatchcase(snap.name, sel[0]) or fnmatch.fnmatchcase(snap.type, sel[0])):
@@ -329,6 +345,9 @@ def gen_plan(rng: random.Random, tier: str) -> dict:
                       "name": rng.choice(G.filler_names(inbound)), "mseed": rng.randrange(1 << 30),
                       "reliable": rng.random() < 0.4, "zerocoded": rng.random() < 0.4,
                       "tricky": rng.random() < 0.2}
+                if rng.random() < 0.08:
+                    # body damaged in flight: the header still names the message, its fields cannot be read
+                    st["corrupt"] = {"kind": "truncate", "n": rng.randint(1, 6)}
             steps.append(st)
     return {"property": PROPERTY, "cfg": cfg, "steps": steps}
 
@@ -402,10 +421,20 @@ def run_plan(plan: dict) -> RunResult:
             the model of *our* window is advanced, whether or not the entry ever reached that window."""
 
             def add_log_entry(self, entry):
-                snap = take_snapshot(entry)
+                try:
+                    snap = take_snapshot(entry)
+                except Exception as ex:
+                    import traceback
+                    violate("HARNESS/snapshot-raised", exc=repr(ex)[:200], tb=traceback.format_exc()[-600:])
+                    return super().add_log_entry(entry)
                 was_paused = flogger.paused
                 del offered[:]
-                super().add_log_entry(entry)
+                try:
+                    super().add_log_entry(entry)
+                except Exception:
+                    # (a damaged entry may make the wrapper's own summary caching fail after the windows took it: the
+                    #  windows' state is judged all the same)
+                    res.probe("wrapper_raised_after_offering")
                 ret = offered[-1] if offered else None
                 if not was_paused:
                     serial[0] += 1
@@ -422,7 +451,13 @@ def run_plan(plan: dict) -> RunResult:
                         return
                     try:
                         snap.session_alive = entry.session is not None
-                        want = eval_tree(model["tree"], snap, agent_id)
+                        want = shown(model["tree"], snap, agent_id)
+                        if snap.undecodable:
+                            try:
+                                eval_tree(model["tree"], snap, agent_id)
+                            except Undecodable:
+                                state["expected_filter_failures"] = state.get("expected_filter_failures", 0) + 1
+                                res.probe("filter_not_evaluable_on_damaged_entry")
                     except Exception as e:
                         violate("HARNESS/evaluator-raised", exc=repr(e)[:200], filter=model["filter_text"])
                         return
@@ -435,7 +470,7 @@ def run_plan(plan: dict) -> RunResult:
                                        windows=len(self.loggers))
                     if bool(ret) != want:
                         failed = [r for r in env.log.records if str(r.msg).startswith("Failed to filter queued message")]
-                        if failed:
+                        if len(failed) > state.get("expected_filter_failures", 0):
                             exc = failed[-1].exc_info[1] if failed[-1].exc_info else None
                             violate("C18/filter/raised-while-logging", filter=model["filter_text"], entry=snap.name,
                                     exc=repr(exc)[:160], type_=snap.type)
@@ -459,9 +494,13 @@ def run_plan(plan: dict) -> RunResult:
                 if entry.message.raw_body is not None:
                     res.probe("entry_logged_with_unparsed_body")
                 msg = _copy.deepcopy(entry.message)
-                d = msg.to_dict(extended=True)
-                s.extended = d
-                s.blocks = {bn: [dict(b) for b in bl] for bn, bl in d["body"].items()}
+                try:
+                    d = msg.to_dict(extended=True)
+                    s.extended = d
+                    s.blocks = {bn: [dict(b) for b in bl] for bn, bl in d["body"].items()}
+                except Exception:
+                    s.undecodable = True
+                    res.probe("entry_with_undecodable_body")
                 s.meta = {"Type": "LLUDP", "Method": msg.direction.name, "AgentID": entry.meta.get("AgentID"),
                           "Reliable": int(msg.reliable), "Zerocoded": int(msg.zerocoded), "Synthetic": bool(msg.synthetic),
                           "Resent": int(msg.resent), "Dropped": bool(msg.dropped), "SelectedLocal": None, "AgentLocal": None,
@@ -566,6 +605,8 @@ def run_plan(plan: dict) -> RunResult:
                     continue
                 seen.add(id(e))
                 snap = snaps[id(e)]
+                if snap.undecodable:
+                    continue        # (whether the logger shows it is judged through the view)
                 snap.session_alive = e.session is not None
                 want = eval_tree(model["tree"], snap, agent_id)
                 state["seen_true" if want else "seen_false"] = True
@@ -622,9 +663,17 @@ def run_plan(plan: dict) -> RunResult:
             try:
                 for e in list(old_visible) + list(model["ring"]):
                     snaps[id(e)].session_alive = e.session is not None
+                for e in [e for e in old_visible if not any(e is r for r in model["ring"])] + list(model["ring"]):
+                    if snaps[id(e)].undecodable:
+                        try:
+                            eval_tree(tree, snaps[id(e)], agent_id)
+                        except Undecodable:
+                            # (each failed evaluation is logged by the logger; that is not an error of the filter)
+                            state["expected_filter_failures"] = state.get("expected_filter_failures", 0) + 1
+                            res.probe("refilter_over_damaged_entry")
                 aged = [e for e in old_visible if not any(e is r for r in model["ring"])
-                        and eval_tree(tree, snaps[id(e)], agent_id)]
-                fresh = [e for e in model["ring"] if eval_tree(tree, snaps[id(e)], agent_id)]
+                        and shown(tree, snaps[id(e)], agent_id)]
+                fresh = [e for e in model["ring"] if shown(tree, snaps[id(e)], agent_id)]
             except Exception as ex:
                 return violate("HARNESS/evaluator-raised", exc=repr(ex)[:200], filter=text)
             model["tree"], model["filter_text"], model["visible"] = tree, text, aged + fresh
@@ -655,7 +704,7 @@ def run_plan(plan: dict) -> RunResult:
             check_view("clear")
 
         def op_export(st):
-            entries = list(flogger)
+            entries = [e for e in flogger if not snaps[id(e)].undecodable]
             if not entries:
                 return
             res.probe("export_import")
@@ -812,7 +861,7 @@ def run_plan(plan: dict) -> RunResult:
             seen_ = set()
             for e in list(model["ring"]) + list(model["visible"]):
                 snap = snaps.get(id(e))
-                if id(e) in seen_ or snap is None or snap.type != "LLUDP":
+                if id(e) in seen_ or snap is None or snap.type != "LLUDP" or snap.undecodable:
                     continue
                 seen_.add(id(e))
                 try:
@@ -826,7 +875,7 @@ def run_plan(plan: dict) -> RunResult:
                     break
         if not stopped:
             bad = [r for r in env.log.records if str(r.msg).startswith("Failed to filter queued message")]
-            if bad:
+            if len(bad) > state.get("expected_filter_failures", 0):
                 exc = bad[0].exc_info[1] if bad[0].exc_info else None
                 violate("C18/filter/raised-while-logging", filter=model["filter_text"], exc=repr(exc)[:160])
         if not stopped:
